@@ -2739,11 +2739,14 @@ def run_fragfirst(prog, ctx=None):
     files = set(ctx.get("files", [])) if ctx else None
     for f in funcs_of(prog, files):
         vecs = {}
-        for p in f.params:
+        for k, p in enumerate(f.params):
             T = f.T(p.get("t"))
-            if T.get("k") == "ptr" and "iovec" in f.T(T.get("to")).get("s", "") and "id" in p:
-                vecs[p["id"]] = p.get("n")
-        if not vecs or not any(f.T(p.get("t")).get("k") == "int" for p in f.params):
+            if T.get("k") == "ptr" and "iovec" in f.T(T.get("to")).get("s", "") and "id" in p and k + 1 < len(f.params):
+                # a list: the pointer is followed by its count (an unsigned 64-bit parameter); a lone `const struct iovec *` is one area
+                NT = f.T(f.params[k + 1].get("t"))
+                if NT.get("k") == "int" and not NT.get("signed") and NT.get("bits", 0) >= 64:
+                    vecs[p["id"]] = p.get("n")
+        if not vecs:
             continue
         # parameters that are stepped are cursors, not the list head
         for b, i, n in f.walk_all():
